@@ -130,6 +130,10 @@ def run_rules(prop: str, proj: Project, tier: str, seed: int) -> Result:
     mod = importlib.import_module(f"csa.rules.{prop}")
     ctx = Ctx(proj, tier, seed)
     res: Result = mod.run(ctx)
+    if getattr(proj, "recovered", None):
+        res.extra["recovered_anchors"] = [f"{a} -> {b}" for a, b in proj.recovered]
+        res.assumptions.append("private routines found under a new name / place: " +
+                               "; ".join(f"{a} -> {b}" for a, b in proj.recovered))
     for rule, floor in res.floors.items():
         n = res.count(rule)
         if n < floor and not res.violations:      # a reported violation is a verdict; floors guard silent passes
